@@ -10,9 +10,9 @@ the machine's typed value, for every magnitude.  Models: `Ledger/Api/Vars.lean`,
 decoders, the compiler and `Machine.SetVarsFromJSON` by the `vars36` and
 `txbody36` correspondence workloads.
 
-Expected false in one place: v2 `ScriptV1.ToCore` sends a *numeric* monetary
-amount through `float64` and `int` — stated as `…_partial` (|n| ≤ 2^53) plus
-counterexamples.
+Since `fix:` ba56562 (`ScriptV1.UnmarshalJSON` decodes with `UseNumber()`) a numeric
+monetary amount of v2 reaches the machine as its literal text, so
+`amount_passthrough_v2_number` holds for every integer (it was false above 2^53).
 -/
 namespace Ledger.C36
 open Ledger.Api
@@ -47,23 +47,17 @@ theorem amount_passthrough_v2_string (a : String) (n : Int) :
     varV2 (.obj [("asset", .str a), ("amount", .str (showIntS n))]) = some (a ++ " " ++ showIntS n) :=
   varV2_monetary_string a n
 
-/-- v2, amount given as a JSON number: what reaches the machine is `v2AmountInt`
-    (nearest `float64`, then `int()`), … -/
-theorem amount_v2_number (a : String) (lit : JNum) :
-    varV2 (.obj [("asset", .str a), ("amount", .num lit)]) = some (a ++ " " ++ showIntS (v2AmountInt lit)) :=
-  varV2_monetary_number a lit
+/-- v2, amount given as a JSON number of any magnitude: passed through untouched. -/
+theorem amount_passthrough_v2_number (a : String) (n : Int) :
+    varV2 (.obj [("asset", .str a), ("amount", JVal.int n)]) = some (a ++ " " ++ showIntS n) := by
+  have h := varV2_monetary_number a (JNum.ofInt n)
+  rw [JNum.text_ofInt] at h
+  exact h
 
-/-- … which is exact up to 2^53 in magnitude (`amount_passthrough`, partial). -/
-theorem amount_passthrough_v2_number_partial (n : Int) (h : n.natAbs ≤ 2 ^ 53) :
-    v2AmountInt (JNum.ofInt n) = n :=
-  v2AmountInt_exact n (by simpa [two53] using h)
-
-/-- Counterexamples on the unchanged code: 2^53+1 silently becomes 2^53, 1.5
-    becomes 1, and 2^63 becomes −2^63 (then refused as negative). -/
-theorem amount_passthrough_v2_number_counterexample :
-    v2AmountInt (JNum.ofInt 9007199254740993) = 9007199254740992 ∧
-    v2AmountInt { neg := false, int := 1, frac := [5], exp := none } = 1 ∧
-    v2AmountInt (JNum.ofInt 9223372036854775808) = -9223372036854775808 := by
+/-- A fractional or exponent literal is handed over as written (`"USD 1.5"`), which
+    the machine then refuses (`parseBigInt` fails): no silent truncation. -/
+theorem amount_v2_fraction_refused :
+    (match parseTyped .monetary "USD 1.5" with | .error _ => true | .ok _ => false) = true := by
   decide +kernel
 
 /-- Non-vacuity of the hypotheses of `amount_passthrough_machine`. -/
